@@ -52,6 +52,12 @@ def c04_cases(tier, seed):
         if prod(a) * prod(b) > 90000 or (bdims(a, b) and prod(bdims(a, b)) > 600):
             continue
         big.append(ew_case(a, b, ops=("add", "mul", "div")))
+    # a dimension around a block size, against equal / unit / lower-rank partners
+    for B in (BLOCKY if tier == "thorough" else rnd.sample(BLOCKY, 4) + [33]):
+        for a, b in (([B], [B]), ([B], [1]), ([2, B], [B]), ([2, B], [2, 1]), ([B, 2], [B, 1]), ([B, 2], [2]), ([1, B], [3, 1]),
+                     ([2, 1, B], [3, 1]), ([B], [2, 1])):
+            big.append(ew_case(a, b, ops=("add", "mul", "axpy")))
+            big.append(ew_case(b, a, ops=("sub", "div")))
     return cases + big
 
 
@@ -132,6 +138,22 @@ def c16_cases(tier, seed):
                      {"op": "abs_diff_eq", "args": [2, 1], "eps": sc(eps)}, {"op": "relative_eq", "args": [2, 1], "eps": sc(eps), "rel": sc(rel)},
                      {"op": "abs_diff_eq", "args": [1, 3], "eps": sc(4)}, {"op": "relative_eq", "args": [1, 3], "eps": sc(4), "rel": sc(1)}]
             cases.append(steps)
+    # a dimension around a block size: construction, a sample of indices (multi and flat), equality with a copy that
+    # differs in the last element only
+    for B in (BLOCKY if tier == "thorough" else rnd.sample(BLOCKY, 3) + [33]):
+        for d in ([B], [2, B], [B, 3], [2, 1, B]):
+            n = prod(d)
+            vals = [((5 * k) % 23) - 11 for k in range(n)]
+            steps = [RESET, leaf(1, d, vals), leaf(2, d, vals[:-1] + [vals[-1] + 1]), leaf(3, d, vals, trk=True), leaf(4, d, [0] * n, ctor="zeros"),
+                     {"op": "eq", "args": [1, 2]}, {"op": "eq", "args": [1, 3]}, {"op": "eq", "args": [4, 1]}]
+            for k in sorted(set([0, 1, n - 1, n // 2, 31 % n, 32 % n, 33 % n, 64 % n])):
+                steps.append({"op": "index", "args": [1], "flat": k})
+                idx, rem = [], k
+                for x in reversed(d):
+                    idx.insert(0, rem % x)
+                    rem //= x
+                steps.append({"op": "index", "args": [1], "idx": idx})
+            cases.append(steps)
     return cases
 
 
@@ -205,6 +227,17 @@ def c07_cases(tier, seed):
                 steps.append(op("reshape", [1], 20 + a, d=[2, a, nblk // a]))
                 steps.append(op("sum", [20 + a], 30 + a, k=2))
         cases.append(steps)
+    # a dimension around a block size: sums over it and next to it, point-wise maps, reshape
+    for B in (BLOCKY if tier == "thorough" else rnd.sample(BLOCKY, 4) + [33]):
+        for d in ([B], [2, B], [B, 2], [2, B, 1]):
+            n = prod(d)
+            steps = [RESET, leaf(1, d, [((3 * k) % 11) - 5 for k in range(n)])]
+            h = 10
+            for k in range(0, len(d) + 1):
+                steps.append(op("sum", [1], h, k=k)); h += 1
+            steps += [{"op": "sum_all", "args": [1]}, op("neg", [1], h), op("scale", [1], h + 1, c=sc(F(3, 2))), op("relu", [1], h + 2),
+                      op("powf", [1], h + 3, p={"n": 2}), op("reshape", [1], h + 4, d=[n]), op("reshape", [1], h + 5, d=[n, 1])]
+            cases.append(steps)
     # beyond the bound: random larger shapes
     nbig = 500 if tier == "thorough" else 120
     for _ in range(nbig):
@@ -228,10 +261,23 @@ def c07_cases(tier, seed):
 LEADS = [[], [2], [1], [3], [2, 2], [1, 2], [2, 1]]
 
 
-def mm_case(da, ta, db, tb, dc=None, trk=(False, False, False), seed=None):
+BLOCKY = [31, 32, 33, 40, 63, 64, 65, 70, 100, 130]       # around the usual block / unroll / panel sizes
+
+
+def zero_runs(n, run, rnd):
+    """values with whole runs of zeros aligned to multiples of `run` (rows / samples that are entirely zero)"""
+    vals = [(k % 7) - 3 if (k % 7) != 3 else 4 for k in range(n)]
+    blocks = list(range(max(1, n // max(1, run))))
+    for b in rnd.sample(blocks, max(1, len(blocks) // 2)):
+        for k in range(b * run, min(n, (b + 1) * run)):
+            vals[k] = 0
+    return vals
+
+
+def mm_case(da, ta, db, tb, dc=None, trk=(False, False, False), seed=None, va=None, vb=None):
     steps = [RESET,
-             leaf(1, da, [(k % 7) - 3 for k in range(prod(da))], trk=trk[0]),
-             leaf(2, db, [(k % 5) + 1 for k in range(prod(db))], trk=trk[1])]
+             leaf(1, da, va or [(k % 7) - 3 for k in range(prod(da))], trk=trk[0]),
+             leaf(2, db, vb or [(k % 5) + 1 for k in range(prod(db))], trk=trk[1])]
     args = [1, 2]
     if dc is not None:
         steps.append(leaf(3, dc, [10 * (k + 1) for k in range(prod(dc))], trk=trk[2]))
@@ -293,6 +339,26 @@ def c05_cases(tier, seed):
         la, lb = rnd.choice(LEADS + [[2, 3], [3], [2, 1, 2]]), rnd.choice(LEADS + [[3], [2, 3]])
         dc = rnd.choice([None, [c], [r, c], [1, c], [1]])
         cases.append(mm_case(la + ([k, r] if ta else [r, k]), ta, lb + ([c, k] if tb else [k, c]), tb, dc))
+    # one of rows / inner / columns around a block size (fast paths with remainders), every flag pair
+    for big in (BLOCKY if tier == "thorough" else rnd.sample(BLOCKY, 5) + [33]):
+        for role in range(3):
+            for ta in (False, True):
+                for tb in (False, True):
+                    rkc = [rnd.randint(1, 3) for _ in range(3)]
+                    rkc[role] = big
+                    r, k, c = rkc
+                    la, lb = rnd.choice([[], [2]]), rnd.choice([[], [2], [1]])
+                    dc = rnd.choice([None, [c], [r, c], [1, c]])
+                    cases.append(mm_case(la + ([k, r] if ta else [r, k]), ta, lb + ([c, k] if tb else [k, c]), tb, dc))
+    # operands with whole rows / columns / aligned runs of zeros (skipping zero work must not skip non-zero work)
+    for _ in range(400 if tier == "thorough" else 100):
+        r, k, c = rnd.randint(1, 4), rnd.randint(1, 4), rnd.randint(1, 4)
+        ta, tb = rnd.random() < 0.5, rnd.random() < 0.5
+        la, lb = rnd.choice([[], [2]]), rnd.choice([[], [2]])
+        da, db = la + ([k, r] if ta else [r, k]), lb + ([c, k] if tb else [k, c])
+        cases.append(mm_case(da, ta, db, tb, rnd.choice([None, [c]]),
+                             va=zero_runs(prod(da), rnd.choice([da[-1], da[-2], 2]), rnd),
+                             vb=zero_runs(prod(db), rnd.choice([db[-1], db[-2], 2]), rnd) if rnd.random() < 0.5 else None))
     return cases
 
 
@@ -329,6 +395,11 @@ def c06_cases(tier, seed):
     cases = [conv_case(*p) for p in pick]
     for p in rnd.sample(space, 100):
         cases.append(conv_case(*p, fdepth=p[1] + 1))      # depth mismatch: refused
+    for B in (BLOCKY[:7] if tier == "thorough" else rnd.sample(BLOCKY[:7], 2) + [33]):
+        cases.append(conv_case([], 1, 2, B, 2, 2, 2, 1, rnd.choice([1, 2])))        # wide image: B-1 windows per row
+        cases.append(conv_case([], 1, B, 2, 1, 2, 1, rnd.choice([1, 3]), 1))       # tall image
+        cases.append(conv_case([], 1, 3, 3, B, 2, 2, 1, 1))                         # B filters
+        cases.append(conv_case([B], 1, 2, 2, 2, 1, 2, 1, 1))                        # B images
     for _ in range(500 if tier == "thorough" else 120):     # beyond the bound
         ir, ic = rnd.randint(3, 9), rnd.randint(3, 9)
         fr, fc = rnd.randint(1, 5), rnd.randint(1, 5)
